@@ -116,6 +116,18 @@ package query
 //@   ownwrites E:parser.QueryExpression# E:parser.Statement#
 //@   safety
 
+// math/rand: Int63n panics for a non-positive bound (documented); RAND(min, max) must not ask for one
+//@ func (*math/rand.Rand).Int63n
+//@   trusted assumed from the documentation of math/rand: panics if n <= 0
+//@   requires [bound-is-positive] n > 0
+//@   modifies * except F:query. E:query. F:value. E:value. F:parser. E:parser. F:option.
+//@ func (*math/rand.Rand).Float64
+//@   trusted assumed: next pseudo-random number
+//@   modifies * except F:query. E:query. F:value. E:value. F:parser. E:parser. F:option.
+//@ func option.GetRand
+//@   trusted assumed: the process-wide generator
+//@   ensures result != nil
+//@   modifies fresh
 //@ func Rand
 //@   property C14 C19
 //@   ownwrites E:parser.QueryExpression# E:parser.Statement#
